@@ -48,12 +48,23 @@ Fixpoint iter (g : state -> oid -> option state) (l : list oid) (s : state) : op
   end.
 
 Lemma exec_for_call cur pre post rep (g : state -> oid -> option state) e x body :
-  (forall s en c, exec cur pre post rep body s (setv en x (VObj c)) = lift (g s c) (setv en x (VObj c))) ->
+  (forall s en c, exists en', exec cur pre post rep body s (setv en x (VObj c)) = lift (g s c) en') ->
   forall s en o, eval cur s en e = VObj o ->
   finish (exec cur pre post rep (SForContents e x body) s en) = iter g (map snd (contents_of s o)) s.
 Proof.
   intros Hb s en o He. cbn [exec]. rewrite He. clear He. generalize (map snd (contents_of s o)). intros l. revert s en.
-  induction l as [|c l IH]; intros s en; [reflexivity|]. rewrite Hb. cbn [iter]. destruct (g s c) as [s1|]; cbn [lift]; [apply IH|reflexivity].
+  induction l as [|c l IH]; intros s en; [reflexivity|]. destruct (Hb s en c) as (en' & E). rewrite E. cbn [iter].
+  destruct (g s c) as [s1|]; cbn [lift]; [apply IH|reflexivity].
+Qed.
+
+(* a `for x in _walk_with_members(o): <body>` whose body is one registry update step(state, x) *)
+Lemma exec_subtree_step cur pre post rep (step : state -> oid -> state) e x body :
+  (forall s en c, exists en', exec cur pre post rep body s (setv en x (VObj c)) = XGo (step s c) en') ->
+  forall s en o, eval cur s en e = VObj o ->
+  finish (exec cur pre post rep (SForSubtree e x body) s en) = Some (fold_left step (subtree s o) s).
+Proof.
+  intros Hb s en o He. cbn [exec]. rewrite He. clear He. generalize (subtree s o). intros l. revert s en.
+  induction l as [|c l IH]; intros s en; [reflexivity|]. destruct (Hb s en c) as (en' & E). rewrite E. cbn [fold_left]. apply IH.
 Qed.
 
 Section Walks.
@@ -80,36 +91,64 @@ Section Walks.
   Lemma iter_stop l : forall s, iter stop_walk l s = Some s.
   Proof. induction l as [|c l IH]; intros s; cbn [iter stop_walk]; [reflexivity|apply IH]. Qed.
 
-  (* the statement before the loop, then the loop: what both walks look like after symbolic execution *)
-  Ltac walk_body g :=
+  (* run the statements before the loop symbolically, keep the loop folded, then use the loop lemma *)
+  Ltac keep_loop :=
     unfold code_pre, code_post;
-    match goal with |- context [SForContents ?e ?x ?body] =>
-      let L := fresh "L" in let EL := fresh "EL" in remember (SForContents e x body) as L eqn:EL; sx; subst L end;
+    match goal with
+    | |- context [SForContents ?e ?x ?body] =>
+      let L := fresh "L" in let EL := fresh "EL" in remember (SForContents e x body) as L eqn:EL; repeat (progress sx); subst L
+    | |- context [SForSubtree ?e ?x ?body] =>
+      let L := fresh "L" in let EL := fresh "EL" in remember (SForSubtree e x body) as L eqn:EL; repeat (progress sx); subst L
+    end.
+  Ltac body_step := intros; eexists; repeat (progress (sx; rewrite ?N.eqb_refl)); reflexivity.
+  Ltac walk_rec g :=
+    keep_loop;
     match goal with
     | |- finish (exec ?cur ?pre ?post ?rep (SForContents ?e ?x ?body) ?s ?en) = _ =>
-      rewrite (exec_for_call cur pre post rep g e x body) with (o := cur);
-      [|intros; sx; rewrite ?N.eqb_refl; reflexivity|sx; reflexivity]
+      rewrite (exec_for_call cur pre post rep g e x body) with (o := cur); [|body_step|repeat (progress sx); reflexivity]
+    end.
+  Ltac walk_flat step :=
+    keep_loop;
+    match goal with
+    | |- finish (exec ?cur ?pre ?post ?rep (SForSubtree ?e ?x ?body) ?s ?en) = _ =>
+      rewrite (exec_subtree_step cur pre post rep step e x body) with (o := cur); [|body_step|repeat (progress sx); reflexivity]
     end.
 
-  (* _handle_reparenting_pre: del allobjects[fullName] for the object and everything below it, parents first *)
-  Theorem pre_ir_eq : forall f s o, pre_ir C f s o = Some (unregister s (subtree_f f s o)).
+  (* _handle_reparenting_pre: del allobjects[fullName] for the object and everything below it, parents first.
+     Either the method recurses through `contents` (then it agrees with the model's walk at every depth bound), or it
+     loops over _walk_with_members (then it is the model's walk at the model's own bound). *)
+  Lemma pre_ir_shape :
+    (forall f s o, pre_ir C f s o = Some (unregister s (subtree_f f s o))) \/
+    (forall f s o, pre_ir C f s o = Some (unregister s (subtree s o))).
   Proof.
-    induction f as [|f IH]; intros s o.
-    - cbn [pre_ir]. change (c_pre C) with code_pre. walk_body stop_walk. rewrite iter_stop. reflexivity.
-    - cbn [pre_ir]. change (c_pre C) with code_pre. walk_body (pre_ir C f).
-      cbn [subtree_f]. change (contents_of (set_all s (pdel (full_name s o) (allobjs s))) o) with (contents_of s o).
-      rewrite (iter_unregister f s IH) by reflexivity. rewrite flat_map_map. reflexivity.
+    first
+      [ left; induction f as [|f IH]; intros s o;
+        [ cbn [pre_ir]; change (c_pre C) with code_pre; walk_rec stop_walk; rewrite iter_stop; reflexivity
+        | cbn [pre_ir]; change (c_pre C) with code_pre; walk_rec (pre_ir C f);
+          cbn [subtree_f]; change (contents_of (set_all s (pdel (full_name s o) (allobjs s))) o) with (contents_of s o);
+          rewrite (iter_unregister f s IH) by reflexivity; rewrite flat_map_map; reflexivity ]
+      | right; intros f s o; destruct f; cbn [pre_ir]; change (c_pre C) with code_pre;
+        walk_flat (fun s0 o0 => set_all s0 (pdel (full_name s0 o0) (allobjs s0))); reflexivity ].
   Qed.
 
-  (* _handle_reparenting_post: allobjects[fullName] = obj, same walk *)
-  Theorem post_ir_eq : forall f s o, post_ir C f s o = Some (register s (subtree_f f s o)).
+  Lemma post_ir_shape :
+    (forall f s o, post_ir C f s o = Some (register s (subtree_f f s o))) \/
+    (forall f s o, post_ir C f s o = Some (register s (subtree s o))).
   Proof.
-    induction f as [|f IH]; intros s o.
-    - cbn [post_ir]. change (c_post C) with code_post. walk_body stop_walk. rewrite iter_stop. reflexivity.
-    - cbn [post_ir]. change (c_post C) with code_post. walk_body (post_ir C f).
-      cbn [subtree_f]. change (contents_of (set_all s (pset (full_name s o) o (allobjs s))) o) with (contents_of s o).
-      rewrite (iter_register f s IH) by reflexivity. rewrite flat_map_map. reflexivity.
+    first
+      [ left; induction f as [|f IH]; intros s o;
+        [ cbn [post_ir]; change (c_post C) with code_post; walk_rec stop_walk; rewrite iter_stop; reflexivity
+        | cbn [post_ir]; change (c_post C) with code_post; walk_rec (post_ir C f);
+          cbn [subtree_f]; change (contents_of (set_all s (pset (full_name s o) o (allobjs s))) o) with (contents_of s o);
+          rewrite (iter_register f s IH) by reflexivity; rewrite flat_map_map; reflexivity ]
+      | right; intros f s o; destruct f; cbn [post_ir]; change (c_post C) with code_post;
+        walk_flat (fun s0 o0 => set_all s0 (pset (full_name s0 o0) o0 (allobjs s0))); reflexivity ].
   Qed.
+
+  Theorem pre_ir_eq s o : pre_ir C (dfuel s) s o = Some (unregister s (subtree s o)).
+  Proof. destruct pre_ir_shape as [H|H]; apply H. Qed.
+  Theorem post_ir_eq s o : post_ir C (dfuel s) s o = Some (register s (subtree s o)).
+  Proof. destruct post_ir_shape as [H|H]; apply H. Qed.
 End Walks.
 
 (* ---- Documentable.reparent ---- *)
@@ -120,14 +159,13 @@ Section Reparent.
   Proof. intros H. unfold is_inst. rewrite H. reflexivity. Qed.
 
   (* the object has a parent, and that parent can contain imports (otherwise Python raises at the `assert`) *)
-  Lemma subtree_unregister s l x : subtree_f (dfuel (unregister s l)) (unregister s l) x = subtree_f (dfuel s) s x.
-  Proof. rewrite dfuel_unregister. apply contents_of_ext, contents_of_objs, objs_unregister. Qed.
+  Lemma subtree_unregister s l x : subtree (unregister s l) x = subtree s x.
+  Proof. unfold subtree. rewrite dfuel_unregister. apply contents_of_ext, contents_of_objs, objs_unregister. Qed.
 
   Lemma subtree_upd_keep s o f ob x :
-    objs s o = Some ob -> o_contents (f ob) = o_contents ob ->
-    subtree_f (dfuel (upd_obj s o f)) (upd_obj s o f) x = subtree_f (dfuel s) s x.
+    objs s o = Some ob -> o_contents (f ob) = o_contents ob -> subtree (upd_obj s o f) x = subtree s x.
   Proof.
-    intros Ho Hc. replace (dfuel (upd_obj s o f)) with (dfuel s) by (destruct (ctl_upd_obj s o f) as (_ & _ & _ & _ & E); congruence).
+    intros Ho Hc. unfold subtree. replace (dfuel (upd_obj s o f)) with (dfuel s) by (destruct (ctl_upd_obj s o f) as (_ & _ & _ & _ & E); congruence).
     apply contents_of_ext. intros y. unfold contents_of. rewrite (upd_obj_some s o f ob Ho), objs_set_obj.
     destruct (oid_eqb y o) eqn:E; [apply oid_eqb_eq in E; subst y; rewrite Ho; exact Hc|reflexivity].
   Qed.
@@ -137,7 +175,7 @@ Section Reparent.
     reparent_ir C s o np nn = Some (reparent s o np nn).
   Proof.
     intros Ho Hp Hq. unfold is_inst in Hq. destruct (objs s q) as [qb|] eqn:Hqb; [|discriminate].
-    unfold reparent_ir, reparent. rewrite Ho, Hp. cbv zeta. unfold subtree.
+    unfold reparent_ir, reparent. rewrite Ho, Hp. cbv zeta.
     change (c_reparent C) with code_reparent. unfold code_reparent.
     repeat (progress (sx; rewrite ?pre_ir_eq, ?post_ir_eq, ?objs_unregister, ?objs_register, ?Ho, ?Hp; unfold is_inst;
                       rewrite ?objs_unregister, ?Hqb, ?Hq)).
